@@ -309,6 +309,10 @@ def const_kinds(rng, wa):
           ('bool', True), ('bool', False),
           ('vstr', False, wa, top), ('vstr', False, wa + 2, 3), ('vstr', False, 1, 1), ('vstr', True, 3, 2),
           ('vstr', True, wa + 1, 1), ('vstr', True, 2, 3), ('vstr', False, 2, 4),
+          # sign twins: the SAME digits first with, then without, and then again with the minus sign (a conversion must
+          # not depend on what was converted earlier in the process)
+          ('vstr', False, 3, 2), ('vstr', True, 3, 2), ('vstr', False, wa + 1, 1), ('vstr', True, 4, 3), ('vstr', False, 4, 3),
+          ('vstr', True, 4, 3),
           ('const', ('int', 6), None, False), ('const', ('int', 2), wa + 1, False),
           ('const', ('int', -3), None, True), ('const', ('int', 3), None, True),
           ('const', ('int', -1), 4, False), ('const', ('int', -4), None, True),
